@@ -126,15 +126,20 @@ def history (s : Store) (serial : Nat) (dflt : Int) (current : Snap) : List ((Na
     | some o => fromDb ++ [((current.cycle, current.node), o.2.getD dflt)]
     | none => fromDb
 
+/-- Python tuple comparison `(cyc, tn) >= (startCycle, startNode)` -/
+def atOrAfter (cn : Nat × Nat) (startCycle startNode : Nat) : Bool :=
+  decide (startCycle < cn.1) || (cn.1 == startCycle && decide (startNode ≤ cn.2))
+
 /-- the loop of `Database.mergeHistory(inputDB, startCycle, startNode)`: copy groups in sorted order
-until one whose (cycle, node) IS the start step is met (`none`: the destination refuses a copy) -/
+until the first one whose (cycle, node) is at or after the start step (`none`: the destination
+refuses a copy) -/
 def mergeLoop (startCycle startNode : Nat) : List (Key × Snap) → Store → Option Store
   | [], dst => some dst
   | g :: rest, dst =>
     match parseName (name g.1) with
     | none => mergeLoop startCycle startNode rest dst
     | some cn =>
-      if cn = (startCycle, startNode) then some dst
+      if atOrAfter cn startCycle startNode then some dst
       else if !dst.isOpen || hasKey dst g.1 then none
       else mergeLoop startCycle startNode rest { dst with groups := dst.groups ++ [g] }
 
@@ -142,10 +147,11 @@ def mergeHistory (dst src : Store) (startCycle startNode : Nat) : Option Store :
   mergeLoop startCycle startNode (sortedGroups src) dst
 
 /-- `Database.splitDatabase(keepTimeSteps, label)`: the database continues with only the unlabelled
-snapshots of the kept steps, cycles renumbered from the least kept cycle (`none` = raises) -/
+snapshots of the kept steps, cycles renumbered from the least kept cycle — in the name, in
+`Reactor/cycle` and in the group's `cycle` attribute (`none` = raises) -/
 def splitCopy (s : Store) (minCycle : Nat) (cn : Nat × Nat) : Option (Key × Snap) :=
   (load s ⟨cn.1, cn.2, []⟩).map (fun snap =>
-    ((⟨cn.1 - minCycle, cn.2, []⟩ : Key), { snap with cycle := cn.1 - minCycle }))
+    ((⟨cn.1 - minCycle, cn.2, []⟩ : Key), { snap with cycle := cn.1 - minCycle, acycle := cn.1 - minCycle }))
 
 def split (s : Store) (keep : List (Nat × Nat)) : Option Store :=
   if !s.isOpen then none
